@@ -73,6 +73,7 @@ type gcaseIn struct {
 	Denoms     []string    `json:"denoms"`
 	FeeDefault string      `json:"fee_default"`
 	FeePairs   [][3]string `json:"fee_pairs"`
+	Skim       [][2]string `json:"skim"`   // taker-fee share agreements: denom idx, skim percent
 	WL         []int       `json:"wl"`     // actors on the reduced-taker-fee whitelist
 	Exempt     []int       `json:"exempt"` // actors on the unrestricted pool creator whitelist (no creation fee)
 	Funds      [][]string  `json:"funds"`  // per actor, per denom
@@ -115,6 +116,7 @@ type gstepOut struct {
 type gobsOut struct {
 	Fatal string     `json:"fatal,omitempty"`
 	Fees  []string   `json:"fees"`
+	Skims []string   `json:"skims"`
 	CFee  []string   `json:"cfee"` // pool creation fee per base denom
 	Init  gstepOut   `json:"init"`
 	Steps []gstepOut `json:"steps"`
@@ -885,6 +887,8 @@ func runC02(t *testing.T, c gcaseIn) (o gobsOut) {
 			o.Fees = append(o.Fees, rawDec(f))
 		}
 	}
+	w.setSkims(ctx, c.Skim)
+	o.Skims = w.skims()
 	o.CFee = g.vec(app.PoolManagerKeeper.GetParams(ctx).PoolCreationFee)
 	g.snapshot(ctx, &o.Init)
 	for _, op := range c.Ops {
